@@ -266,9 +266,14 @@ fn stress(args: &Args) {
             hs.push(std::thread::spawn(move || {
                 let mut r = Rng::new(seed, "c11-u", round * 100 + i as u64);
                 let mut evs = vec![];
-                // each thread works through its own clone of the handle
-                let mine = sh.atomic.clone();
-                updater(&sh, &mine, i, uops, &mut r, &mut evs);
+                // each thread works through its own clone of the handle - or, every third round,
+                // all threads share the ONE handle by reference (no clone alive anywhere)
+                if round % 3 == 2 {
+                    updater(&sh, &sh.atomic, i, uops, &mut r, &mut evs);
+                } else {
+                    let mine = sh.atomic.clone();
+                    updater(&sh, &mine, i, uops, &mut r, &mut evs);
+                }
                 evs
             }));
         }
@@ -278,8 +283,12 @@ fn stress(args: &Args) {
             hs.push(std::thread::spawn(move || {
                 let mut r = Rng::new(seed, "c11-r", round * 100 + i as u64);
                 let mut evs = vec![];
-                let mine = sh.atomic.clone();
-                reader(&sh, &mine, i, rops, &mut r, &mut evs);
+                if round % 3 == 2 {
+                    reader(&sh, &sh.atomic, i, rops, &mut r, &mut evs);
+                } else {
+                    let mine = sh.atomic.clone();
+                    reader(&sh, &mine, i, rops, &mut r, &mut evs);
+                }
                 evs
             }));
         }
